@@ -12,6 +12,48 @@ import (
 
 func init() {
 	handlers["walk"] = hWalk
+	handlers["subwalk"] = hSubWalk
+}
+
+// hSubWalk: SubDirFS over several materialised trees
+func hSubWalk(o Op) map[string]interface{} {
+	dir := newScratch("subwalk")
+	defer os.RemoveAll(dir)
+	var dirs []fsutil.Dir
+	outDirs := []interface{}{}
+	for k, d := range o.arr("dirs") {
+		dm := Op(d.(map[string]interface{}))
+		root := filepath.Join(dir, itoa(k))
+		if err := os.Mkdir(root, 0755); err != nil {
+			return map[string]interface{}{"err": err.Error()}
+		}
+		if err := mktree(root, treeFromJSON(dm.arr("tree"))); err != nil {
+			return map[string]interface{}{"err": "mktree: " + err.Error()}
+		}
+		snap, err := snapshot(root, false)
+		if err != nil {
+			return map[string]interface{}{"err": "snapshot: " + err.Error()}
+		}
+		f, err := fsutil.NewFS(root)
+		if err != nil {
+			return map[string]interface{}{"err": "newfs: " + err.Error()}
+		}
+		st := &types.Stat{Path: dm.hex("name"), Mode: uint32(os.ModeDir) | 0755, Uid: uint32(dm.num("uid")), ModTime: 1600000000000000000}
+		dirs = append(dirs, fsutil.Dir{Stat: st, FS: f})
+		outDirs = append(outDirs, map[string]interface{}{"root": statToJSON(st), "snap": snapsToJSON(snap)})
+	}
+	res := map[string]interface{}{"dirs": outDirs}
+	sfs, err := fsutil.SubDirFS(dirs)
+	if err != nil {
+		res["newerr"] = err.Error()
+		return res
+	}
+	out, err := walkStats(sfs, "")
+	if err != nil {
+		res["walkerr"] = err.Error()
+	}
+	res["out"] = out
+	return res
 }
 
 // walkStats runs fs.Walk and collects (callback path, stat)
